@@ -15,6 +15,10 @@
                                under the caller's weights (transport along the edge permutation, both ways).
      C06_k1_signed_modulo_search  the same for approx_mcb_sva_signed with the premise reduced to the
                                specification of the per-phase search, plus returned value = total weight.
+     C06_k1_signed             PREMISE-FREE: for every simple graph with positive weights, every scan order and
+                               every oracle, approx_mcb_sva_signed with k = 1 returns ApproxOk, the emitted family
+                               is a minimum cycle basis of the caller's graph and the returned value its weight
+                               (exact phase discharged by BidirProofs5.C01_signed / C02_signed).
      C06_dijkstra              the plain parmcb::dijkstra (DijkstraModel, exact 4-ary heap) on non-negative
                                weights never produces an error value, and its distances are shortest-walk
                                distances realised by the predecessor edges.
@@ -29,7 +33,7 @@
 From Coq Require Import List Arith Bool ZArith Permutation Sorted Lia.
 From Parmcb Require Import GraphModel GF2Model GraphSpec McbSpec ForestModel SpannerModel SvaModel SvaSpec SvaProofs
   SignedModel SignedZModel RefModel RefProofs3 DijkstraModel ApproxModel ApproxProofsDijkstraOpt ApproxProofsRun ApproxProofsSigned
-  ApproxProofsEdge.
+  ApproxProofsEdge ApproxProofsSignedFull.
 Import ListNotations.
 
 Theorem C06_k0 :
@@ -74,6 +78,16 @@ Theorem C06_k1_signed_modulo_search :
     min_cycle_basis g w (map set_of_list cycles) /\ total = total_weight w cycles.
 Proof. exact ap_signed_k1_min. Qed.
 Print Assumptions C06_k1_signed_modulo_search.
+
+Theorem C06_k1_signed :
+  forall g w scan roots eord,
+    simple_graph g -> positive_weights g w -> Permutation scan (seq 0 (ne g)) ->
+    (forall v, v < nv g -> In v roots) ->
+    exists cycles total,
+      approx_sva_signed_Z g w 1 scan roots eord = ApproxOk cycles total
+      /\ min_cycle_basis g w (map set_of_list cycles) /\ total = total_weight w cycles.
+Proof. exact ap_signed_k1_full. Qed.
+Print Assumptions C06_k1_signed.
 
 Theorem C06_dijkstra :
   forall h wts s,
